@@ -210,6 +210,10 @@ def generic(mod, pid, args, seed, t0):
         print('VIOLATION property=%s replay=%s obligation=%s status=%s no-failing-input-found' % (
             pid, path, o.name, o.status))
       exit_code = 1
+  if not failed and not violations:
+    for msg in getattr(ex, 'missing_anchors', []):
+      # an anchored lemma of the contract was never placed although everything verifies: a contract defect (would blur a later verdict)
+      print('CHECKER-NOTE: %s' % msg)
   for line in known_lines:
     print(line)
   if exit_code == 0 and problems:
